@@ -40,7 +40,9 @@ Cmp(x, y) ==
   ELSE IF ~CellsEq(Fld(x, "new", <<>>), Fld(y, "new", <<>>), exact) THEN "pair.new-cells"
   ELSE IF x.k = "init" /\ ~(CellsEq(x.cells, y.cells, exact) /\ x.kids = y.kids /\ x.layers = y.layers) THEN "pair.initial-tree"
   ELSE IF Fld(x, "ptok", 1) # Fld(y, "ptok", 1) THEN "pair.point"
-  ELSE IF Has(x, "cands") /\ x.cands # y.cands THEN "pair.cell"
+  \* candidate cells are found by float equality of representatives, which an inexact map need not preserve
+  \* (a K-odd parent and its middle child share a centre only up to rounding): compared under exact maps only
+  ELSE IF exact /\ Has(x, "cands") /\ x.cands # y.cands THEN "pair.cell"
   ELSE IF Has(x, "sub") /\ x.sub # y.sub THEN "pair.learners"
   ELSE IF Has(x, "pt") /\ exact /\ x.pt # y.pt THEN "pair.point"
   ELSE IF Has(x, "rel") /\ ~(\A j \in DOMAIN x.rel : Near(x.rel[j], y.rel[j], IF exact THEN 0 ELSE Pr.tol)) THEN "pair.position"
